@@ -21,6 +21,8 @@ def cell_target(kind):
         return dict(T.spec_gauss(d=2, mu=0.2, sig=0.12), kind="gauss"), {}
     if kind == "bimodal":
         return dict(T.spec_bimodal(d=2, w1=0.3, sep=1.0, sig=0.08), kind="bimodal"), {}
+    if kind == "bimodal_far":  # narrow, far-apart modes: one global mode fits badly (low tpCN acceptance, step sizes adapt)
+        return dict(T.spec_bimodal(d=2, w1=0.3, sep=1.2, sig=0.035), kind="bimodal"), {}
     if kind == "expedge":
         return dict(T.spec_expedge(d=2, lam=6.0), kind="expedge"), {}
     if kind == "halfgauss_hard":
@@ -43,6 +45,8 @@ def make_run_case(cell, N, rep, seed):
         cfg["volume_variation"] = cell["vv"]
     if cell.get("ess_ratio"):
         cfg["ess_ratio"] = cell["ess_ratio"]
+    if cell.get("n_steps"):
+        cfg["n_steps"] = cell["n_steps"]
     cfg.update(bcfg)
     case = dict(kind="run", cell=cell, N=N, rep=rep, seed=seed, target=tgt, cfg=cfg, n_total=8 * N, scenario="plain", eval="scalar")
     arm = cell.get("arm", "faultfree")
